@@ -6,7 +6,8 @@ cd $wt || exit 2
 git checkout -q -- . ; git clean -qfd -e out
 mod=grpcgcp; dir=grpcgcp; flags=""
 case $p/$n in
- C10/2) dir=grpcgcp/multiendpoint; flags=-race;;
+ C10/2) dir=grpcgcp; flags=-race;;
+ C10/3) dir=grpcgcp/multiendpoint; flags=-race;;
  C13/*|C14/*) dir=grpcgcp/multiendpoint;;
  C10/*|C09/1) flags=-race;;
  C18/3) mod=spanner_prober; dir=spanner_prober;;
